@@ -205,18 +205,25 @@ def c19_grid(rnd, n_scripts, full=False):
     and audio-only. Each script is long enough for several segments."""
     out = []
     pms = list(range(50, 2001, 50))
+    n_late = max(12, n_scripts // 8)
     for i in range(n_scripts):
-        kind = rnd.choice(["v", "v", "v", "aac", "opus"])
+        # the first n_late scripts are always video-led with a late audio track of an odd rate (its unit duration is not
+        # compatible with the part duration derived from the frame rate): only the leading track may shape the parts
+        late = i < n_late
+        kind = "v" if late else rnd.choice(["v", "v", "v", "aac", "opus"])
         pm = rnd.choice(pms) if rnd.random() < 0.6 else rnd.choice([50, 100, 200, 200, 250, 500, 1000])
+        if late:
+            pm = rnd.choice([100, 150, 200, 200, 250, 500])
         sm = rnd.choice([1000, 2000, 4000])
         if kind == "v":
-            sd = rnd.choice(VIDEO_SD)
+            sd = rnd.choice([3000, 3600, 1500, 1800, 3003]) if late else rnd.choice(VIDEO_SD)
             codec = rnd.choice(VIDEO)
-            cfg = make_cfg(rnd, "ll", tracks=[codec] + rnd.choice([[], [], ["aac"]]), seg_min_ms=sm, part_min_ms=pm, seg_count=7, query="")
+            cfg = make_cfg(rnd, "ll", tracks=[codec] + (["aac"] if late else rnd.choice([[], [], ["aac"]])), seg_min_ms=sm, part_min_ms=pm,
+                           seg_count=7, query="")
             for t in cfg["tracks"]:
                 if t["codec"] == "aac":
-                    t["rate"] = rnd.choice([44100, 48000, 16000, 8000, 22050, 32000])
-            adelay = rnd.choice([0, 0, 0.3, 0.7, 1.5])
+                    t["rate"] = rnd.choice([16000, 8000, 22050, 11025] if late else [44100, 48000, 16000, 8000, 22050, 32000])
+            adelay = rnd.choice([0.5, 0.7, 1.5]) if late else rnd.choice([0, 0, 0.3, 0.7, 1.5])
             rate = 90000
             gop_t = rnd.choice([0.5, 1, 1, 2, 2.5, 4]) * 90000
             gop = max(1, int(round(gop_t / sd)))
